@@ -83,6 +83,26 @@ def enum5 (a p : Nat) : String := Id.run do
           out := out ++ toString code ++ " "
   return out
 
+/-- the 52 card words followed by blank: the alphabet of property C05 -/
+def deckBlankArr : Array Nat := (Spec.deckWords ++ [0]).toArray
+
+/-- bulk request: every five-slot multiset over {52 cards, blank} whose lowest symbol index is `a`;
+    per hand `value * 4 + (validated ok) * 2 + (fiveCards ok)`, where "ok" = returned something;
+    999999 for a panic of the unvalidated ranking -/
+def enum5b (a : Nat) : String := Id.run do
+  let mut out := ""
+  for b in [a:53] do
+    for c in [b:53] do
+      for d in [c:53] do
+        for e in [d:53] do
+          let h := [deckBlankArr[a]!, deckBlankArr[b]!, deckBlankArr[c]!, deckBlankArr[d]!, deckBlankArr[e]!]
+          let code :=
+            match handRankValue5 T h with
+            | none => 999999
+            | some v => v * 4 + 2 * boolNat (handRankValueValidated5 T h).isSome + boolNat (fiveCards T h).isSome
+          out := out ++ toString code ++ " "
+  return out
+
 /-- spec-only oracle: every class with its position (1 = strongest) in the order by `Spec.strength` -/
 def oracle5 : String := Id.run do
   let cs := Lemmas.classes.toArray
@@ -119,6 +139,7 @@ def answer (cmd : String) (args : List Nat) : String :=
   | "find", [k] => showOpt (findInProducts T k)
   | "enum5", [a, p] => enum5 a p
   | "oracle5", [] => oracle5
+  | "enum5b", [a] => enum5b a
   | "ev5", [a, b, c, d, e] =>
     let h := [a, b, c, d, e]
     joinStrs [showValueHand (handRankValueAndHand5 T h), showOpt (handRankValue5 T h),
